@@ -58,6 +58,13 @@ def run(ctx):
     uses = any(isinstance(n, ast.Call) and txt(n.func) in ('_line_ending_re.finditer', '_line_ending_re.split',
                                                             '_line_ending_re.search') for n in ast.walk(isl.node))
     ctx.ob('T12.use', isl.fq, 'iter_splitlines scans with _line_ending_re', uses, loc=isl.loc)
+    # one table of line breaks only: iter_splitlines itself holds no second, hard-coded list of break characters
+    breaks = set(''.join(SPLITLINES))
+    lits = [n for n in ast.walk(isl.node) if isinstance(n, ast.Constant) and isinstance(n.value, str) and n.value
+            and set(n.value) & breaks and not (isl.node.body and isinstance(isl.node.body[0], ast.Expr) and n is isl.node.body[0].value)]
+    ctx.ob('T12.one', isl.fq, 'iter_splitlines decides everything from the pattern\'s matches; it contains no literal line-break '
+           'characters of its own (a second table would disagree with _line_ending_re)', not lits,
+           loc=loc(isl, lits[0]) if lits else isl.loc, detail=repr([n.value for n in lits][:3]))
     ind = prog.func('strutils.indent')
     calls = [n for n in ast.walk(ind.node) if isinstance(n, ast.Call) and call_name(n) == 'iter_splitlines']
     other = [n for n in ast.walk(ind.node) if isinstance(n, ast.Call) and isinstance(n.func, ast.Attribute)
@@ -91,7 +98,9 @@ def run(ctx):
     for h in handlers:
         reraises = any(isinstance(x, ast.Raise) for x in ast.walk(h))
         guarded = any(isinstance(x, ast.If) and 'ignore_errors' in txt(x.test) for x in ast.walk(h))
-        ok = ok and reraises and guarded
+        # corrupt input makes json.loads raise more than ValueError (RecursionError on deep nesting, ...)
+        broad = h.type is None or txt(h.type) in ('Exception', 'BaseException')
+        ok = ok and reraises and guarded and broad
     ctx.ob('T14.jsonl', nx.fq, 'undecodable lines are skipped only when ignore_errors is set (otherwise re-raised)', ok, loc=nx.loc)
     for r, n in (('T12.req', 8), ('T12.only', 8), ('T12.order', 8), ('T17', 1), ('T9.blank', 1)):
         ctx.need(r, n)
